@@ -10,6 +10,9 @@
 -/
 import DiskfsModel.Proofs.MetaCodec
 import DiskfsModel.Proofs.MetaInodeBytes
+import DiskfsModel.Proofs.MetaRR
+import DiskfsModel.Proofs.MetaSqfs
+import DiskfsModel.Proofs.MetaWriteBack
 import DiskfsModel.Generated.Meta
 namespace Diskfs.C19
 open Diskfs.Meta Diskfs.Ext4.InodeCodec
@@ -258,5 +261,140 @@ example : (attrsOf (chmodBytes (zeros 256) 0o4750)).perm = 0o4750 := by
 -- a directory's mode word 0x41ed after Chmod 04750: type nibble 4 kept, twelve bits replaced
 example : (0x41ed / 4096 * 4096 + 0o4750) % 65536 = 0x49e8 := by decide
 example : fatUnpack (fatPack ⟨1970, 1, 1, 0, 0, 1⟩).1 (fatPack ⟨1970, 1, 1, 0, 0, 1⟩).2 = ⟨2098, 1, 1, 0, 0, 0⟩ := by decide
+
+/-! ### second round (deep5-meta): Rock Ridge time stamps, TF and PX records; squashfs id table blocks and the
+    remaining inode types; the ext4 setters through the library's read-modify-write -/
+
+/-- the 7-byte stamp (TF short form, also the directory record date): every civil time of the years 1900..2155
+    with a zone offset of -128..127 quarter hours comes back, to the second, the offset cut to quarter hours -/
+theorem rr_stamp7_roundtrip (s : Stamp) (h : Stamp7WF s) : stamp7Dec (stamp7Enc s) = stamp7Norm s :=
+  stamp7_roundtrip_aux s h
+
+/-- … and outside that range exactly this happens: the year comes back as 1900 + (year - 1900) mod 256 (1899 reads
+    2155, 2156 reads 1900), the zone as its quarter hours mod 256 read as a signed byte -/
+theorem rr_stamp7_wraps (s : Stamp) (h3 : s.month < 256) (h4 : s.day < 256) (h5 : s.hour < 256) (h6 : s.minute < 256)
+    (h7 : s.second < 256) :
+    stamp7Dec (stamp7Enc s) =
+      { s with year := 1900 + (s.year - 1900) % 256, csec := 0,
+               offset := int8 (tzQuarters s.offset % 256).toNat * 900 } :=
+  stamp7_wraps_aux s h3 h4 h5 h6 h7
+
+theorem rr_stamp7_range_tight :
+    (stamp7Dec (stamp7Enc ⟨2156, 1, 1, 0, 0, 0, 0, 0⟩)).year = 1900 ∧ (stamp7Dec (stamp7Enc ⟨1899, 1, 1, 0, 0, 0, 0, 0⟩)).year = 2155 := by
+  decide
+
+/-- the 17-byte stamp (TF long form): every valid civil time of the years 0..9999 with hundredths of a second and a
+    zone offset of at most 99 quarter hours either way passes the digits and time.Parse's checks and comes back -/
+theorem rr_stamp17_roundtrip (s : Stamp) (h : Stamp17WF s) : stamp17Dec (stamp17Enc s) = some (stamp17Norm s) :=
+  stamp17_roundtrip_aux s h
+
+/-- a year of five digits loses its last digit (12345 is stored as 1234); a zone of 25 hours is refused when read -/
+theorem rr_stamp17_range_tight :
+    (stamp17Dec (stamp17Enc ⟨12345, 1, 2, 3, 4, 5, 0, 0⟩)).map (·.year) = some 1234 ∧
+    stamp17Dec (stamp17Enc ⟨2026, 1, 2, 3, 4, 5, 0, 90000⟩) = none := by decide
+
+/-- a TF record, either form, any subset of the seven stamps: flags byte, stamps in bit order, length byte; the
+    parser returns the form and exactly the stamps recorded, each as its codec returns it -/
+theorem rr_tf_roundtrip (t : Tf) (hn : t.slots.length = 7) (h : ∀ s, some s ∈ t.slots → StampWF t.long s) :
+    tfDec (tfEnc t) = some ⟨t.long, t.slots.map (Option.map (stampNorm t.long))⟩ :=
+  tf_roundtrip_aux t hn h
+
+/-- the whole 44-byte PX record: type, twelve mode bits, link count, uid and gid (32 bits each) come back from the
+    little-endian halves the parser reads, and the big-endian halves hold the same four values -/
+theorem rr_px_record_roundtrip (p : Px) (hm : p.mode.perm < 512) (hl : p.links < 2 ^ 32) (hu : p.uid < 2 ^ 32)
+    (hg : p.gid < 2 ^ 32) :
+    pxDec (pxEnc p) = some (some p.kind, p.mode, p.links, p.uid, p.gid) ∧
+    pxBigEndian (pxEnc p) = (pxModeEnc p.kind p.mode, p.links, p.uid, p.gid) ∧
+    pxLittleEndian (pxEnc p) = (pxModeEnc p.kind p.mode, p.links, p.uid, p.gid) := by
+  obtain ⟨f1, f2, f3, f4, f5, f6, f7, f8⟩ := px_fields p
+  have hmode := pxModeEnc_lt p.kind p.mode hm
+  have e4 : ∀ n, n < 2 ^ 32 → leDec (leEnc 4 n) = n := fun n hn => leDec_leEnc_of_lt 4 n (by simpa using hn)
+  have b4 : ∀ n, n < 2 ^ 32 → beDec (beEnc 4 n) = n := fun n hn => beDec_beEnc_of_lt 4 n (by simpa using hn)
+  refine ⟨?_, ?_, ?_⟩
+  · have g2 : (pxEnc p).getD 2 0 = 44 := by simp [pxEnc]
+    have g3 : (pxEnc p).getD 3 0 = 1 := by simp [pxEnc]
+    unfold pxDec
+    rw [if_neg (by rw [pxEnc_length, g2, g3]; decide)]
+    simp only [f1, f3, f5, f7, e4 _ hmode, e4 _ hl, e4 _ hu, e4 _ hg, rr_px_mode_roundtrip p.kind p.mode hm]
+  · simp only [pxBigEndian, f2, f4, f6, f8, b4 _ hmode, b4 _ hl, b4 _ hu, b4 _ hg]
+  · simp only [pxLittleEndian, f1, f3, f5, f7, e4 _ hmode, e4 _ hl, e4 _ hu, e4 _ hg]
+
+/-- squashfs id table across metadata blocks: up to 65535 ids written 2048 to a block are read back complete and in
+    order - with the repaired arithmetic for every count, as found up to 16384 ids -/
+theorem sqfs_idtable_blocks_roundtrip (widen : Bool) (ids : List Nat) (h0 : 0 < ids.length) (h1 : ids.length < 65536)
+    (hw : widen = true ∨ ids.length ≤ 16384) : readIds widen ids.length (idBlocksWr ids) = ids :=
+  idtable_blocks_roundtrip_aux widen ids h0 h1 hw
+
+/-- as found (`idCount*4` in uint16): of 16385 ids - nine metadata blocks - one block is read: every table of that
+    size comes back as its first 2048 ids -/
+theorem sqfs_id_blocks_wrap_16385 :
+    idBlocksRd false 16385 = 1 ∧ idBlocksRd true 16385 = 9 ∧
+    ∀ ids : List Nat, ids.length = 16385 → readIds false ids.length (idBlocksWr ids) = ids.take 2048 := by
+  refine ⟨by decide, by decide, fun ids h => ?_⟩
+  rw [readIds_take false ids ids.length (by rw [h]; decide), h]
+  rfl
+
+/-- chained with the index hand-out: the owner recorded for a file is the id at its index in the table read back -/
+theorem sqfs_owner_through_blocks (widen : Bool) (tbl : List Nat) (id : Nat)
+    (h1 : (idIndex tbl id).1.length < 65536) (hw : widen = true ∨ (idIndex tbl id).1.length ≤ 16384) :
+    (readIds widen (idIndex tbl id).1.length (idBlocksWr (idIndex tbl id).1))[(idIndex tbl id).2]? = some id := by
+  have h0 : 0 < (idIndex tbl id).1.length := by
+    have := (sqfs_ids_roundtrip tbl id).1
+    cases hl : (idIndex tbl id).1 with
+    | nil => rw [hl] at this; simp at this
+    | cons _ _ => simp
+  rw [sqfs_idtable_blocks_roundtrip widen _ h0 h1 hw]
+  exact (sqfs_ids_roundtrip tbl id).1
+
+/-- the squashfs inode types outside the data-path model (extended symlink, block and character devices, fifos and
+    sockets, basic and extended): header (mode word, uid and gid index, mtime, inode number), link count, xattr
+    index, symlink target and device word all come back, and the bytes after the inode are left for the next one -/
+theorem sqfs_other_inodes_roundtrip (h : XHdr) (b : XBody) (rest : Bytes) (hh : h.WF) (hf : b.fits h.typ = true)
+    (hb : b.WF) : decX (encX h b ++ rest) = some (h, b, rest) :=
+  decX_encX h b rest hh hf hb
+
+/-- ext4, repaired write-back (toBytes starts from the record read): the library's Chmod / Chown / Chtimes produce
+    exactly the record the setter theorems above are about - every byte outside the setter's words is kept -/
+theorem ext4_setters_rmw_kept (b : Bytes) (perm : Nat) (uid gid : Option Nat) (cr at' mt : Ts) :
+    chmodRmw true b perm = chmodBytes b perm ∧ chownRmw true b uid gid = chownBytes b uid gid ∧
+    chtimesRmw true b cr at' mt = chtimesBytes b cr at' mt := ⟨rfl, rfl, rfl⟩
+
+/-- ext4, as found (toBytes starts from zeros): a write-back keeps the length and every byte outside 0x70..0x73,
+    0x7e..0x7f, the flags word and the bytes from 0x98 on - and zeroes those -/
+theorem ext4_writeback_as_found_drops (b : Bytes) (h : RecordWF b) :
+    (writeBack false b).length = b.length ∧
+    (∀ i, dropped i = false → (i < 0x20 ∨ 0x24 ≤ i) → (writeBack false b)[i]? = b[i]?) ∧
+    (∀ i, i < b.length → dropped i = true → (writeBack false b)[i]? = some 0) :=
+  ⟨writeBack_length false b h, fun i hd hf => writeBack_frame b i h hd hf, fun i hi hd => writeBack_drops b i h hi hd⟩
+
+/-- … so as found each of the three setters wipes the inode body from 0x98 on: high half of i_version, i_projid and
+    the extended attributes stored in the inode (the defect ext4-inode-writeback-drops-unmodelled-fields) -/
+theorem ext4_setters_drop_inode_body (b : Bytes) (perm : Nat) (uid gid : Option Nat) (cr at' mt : Ts) (i : Nat)
+    (h : RecordWF b) (hi : i < b.length) (h98 : 0x98 ≤ i) :
+    (chmodRmw false b perm)[i]? = some 0 ∧ (chownRmw false b uid gid)[i]? = some 0 ∧
+    (chtimesRmw false b cr at' mt)[i]? = some 0 :=
+  ⟨chmodRmw_drops b perm i h hi h98, chownRmw_drops b uid gid i h hi h98, chtimesRmw_drops b cr at' mt i h hi h98⟩
+
+/-- the constants the second-round mirrors are defined over are the ones in the source: the flag bits inodeFlags
+    carries, four-byte ids in 8 KiB metadata blocks (2048 to a block), the fourteen inode type codes, the TF bits -/
+theorem facts_agree_second_round :
+    Meta.ext4InodeFlagsKnown = knownFlags ∧ Meta.sqMetadataBlockSize / Meta.sqIdEntrySize = 2048 ∧
+    Meta.sqInodeTypes = [1, 2, 3, 4, 5, 6, 7, 8, 9, 10, 11, 12, 13, 14] ∧ Meta.rrTfBits = [1, 2, 4, 8, 16, 32, 64, 128] := by
+  decide
+
+/-! non-vacuity (second round) -/
+example : Stamp7WF ⟨2026, 9, 24, 2, 5, 0, 0, -5400⟩ := by unfold Stamp7WF; decide
+example : Stamp17WF ⟨2024, 2, 29, 23, 59, 59, 99, 50400⟩ := by unfold Stamp17WF; decide
+example : StampWF true ⟨2024, 2, 29, 23, 59, 59, 99, 50400⟩ := by
+  show Stamp17WF _
+  unfold Stamp17WF; decide
+example : tfDec (tfEnc ⟨false, [none, some ⟨2026, 9, 24, 2, 5, 0, 0, 0⟩, some ⟨1999, 12, 31, 23, 59, 59, 0, 3600⟩, none, none, none, none]⟩) =
+    some ⟨false, [none, some ⟨2026, 9, 24, 2, 5, 0, 0, 0⟩, some ⟨1999, 12, 31, 23, 59, 59, 0, 3600⟩, none, none, none, none]⟩ := by decide
+example : (XHdr.mk 11 0o644 1 2 5 9).WF ∧ (XBody.devx 1 2048 7).fits 11 = true ∧ (XBody.devx 1 2048 7).WF := by
+  simp [XHdr.WF, XBody.fits, XBody.WF]
+example : (idIndex [0, 1000] 65534).1.length < 65536 := by decide
+-- the inode body of a 256-byte record: offsets 0x98..0xff satisfy the hypotheses of ext4_setters_drop_inode_body
+example : RecordWF (zeros 256) ∧ (0xa3 : Nat) < (zeros 256).length ∧ 0x98 ≤ (0xa3 : Nat) ∧ dropped 0xa3 = true := by
+  simp [RecordWF, dropped]
 
 end Diskfs.C19
